@@ -18,6 +18,12 @@
 (*   recving[c]  Channel.recving     (bytes of the message in assembly)    *)
 (*   dlv[c]      the messages handed to onReceive, in order                *)
 (*                                                                         *)
+(* The stream can end at ANY byte (the peer disappears, the transport      *)
+(* breaks): action Cut.  What has been read stays read, everything behind  *)
+(* the cut is lost, including the rest of a packet that was cut in the     *)
+(* middle; the receiver must not hand over anything it has not received    *)
+(* completely.                                                             *)
+(*                                                                         *)
 (* A message is [id, len] (id = per-channel sequence number given by the   *)
 (* caller); a piece of a message is [id, lo, hi] = its bytes lo .. hi-1.   *)
 (* The code always cuts packets of the maximal size min(P, rest); with a   *)
@@ -38,6 +44,7 @@ CONSTANTS Chans,    \* channel ids
           QCap,     \* capacity of a send queue
           WireCap,  \* packets in flight (the receiver's behaviour depends only on the ORDER of the
                     \* packets on the stream, which this bound does not restrict)
+          CutBetween, \* TRUE: the stream may also end between two packets (not only inside one)
           Cuts      \* packet sizes below the maximal one the sender may also choose ({}: the code's sender)
 
 VARIABLES enq,      \* enq[c]: messages accepted by Send on channel c, in order (history)
@@ -46,8 +53,9 @@ VARIABLES enq,      \* enq[c]: messages accepted by Send on channel c, in order 
           wire,     \* packets written to the stream and not yet read by the receiver
           recving,  \* recving[c]: pieces appended since the last complete message
           dlv,      \* dlv[c]: what onReceive got, message by message (each a sequence of pieces)
+          cut,      \* TRUE once the stream has ended
           last      \* label of the last action (output only; hidden by the VIEW)
-vars == <<enq, queue, sending, wire, recving, dlv, last>>
+vars == <<enq, queue, sending, wire, recving, dlv, cut, last>>
 
 Min(a, b) == IF a < b THEN a ELSE b
 RECURSIVE SumLen(_, _)
@@ -69,31 +77,33 @@ Init == /\ enq = [c \in Chans |-> <<>>]
         /\ wire = <<>>
         /\ recving = [c \in Chans |-> <<>>]
         /\ dlv = [c \in Chans |-> <<>>]
+        /\ cut = FALSE
         /\ last = [op |-> "init"]
 
 \* MConnection.Send / TrySend with room in the queue: `ch.sendQueue <- bytes`
 \* (id is the caller's name for the message: its sequence number on the channel)
 SendMsg(c, id, n) ==
-  /\ Len(queue[c]) < QCap
+  /\ ~cut /\ Len(queue[c]) < QCap
   /\ LET m == [id |-> id, len |-> n] IN
        /\ enq' = [enq EXCEPT ![c] = Append(@, m)]
        /\ queue' = [queue EXCEPT ![c] = Append(@, m)]
        /\ last' = [op |-> "send", ch |-> c, id |-> id, n |-> n, res |-> TRUE]
-  /\ UNCHANGED <<sending, wire, recving, dlv>>
+  /\ UNCHANGED <<sending, wire, recving, dlv, cut>>
 
 Send(c, n) == /\ Len(enq[c]) < MaxMsgs /\ Total < MaxTotal
               /\ SendMsg(c, Len(enq[c]) + 1, n)
 
 \* TrySend on a full queue returns false and the message is dropped by the caller
 TrySendFull(c, n) ==
-  /\ Len(enq[c]) < MaxMsgs /\ Total < MaxTotal /\ Len(queue[c]) = QCap
+  /\ ~cut /\ Len(enq[c]) < MaxMsgs /\ Total < MaxTotal /\ Len(queue[c]) = QCap
   /\ last' = [op |-> "trysend", ch |-> c, id |-> 0, n |-> n, res |-> FALSE]
-  /\ UNCHANGED <<enq, queue, sending, wire, recving, dlv>>
+  /\ UNCHANGED <<enq, queue, sending, wire, recving, dlv, cut>>
 
 \* one iteration of sendPacketMsg for the chosen channel c:
 \*   isSendPending: `if len(ch.sending) == 0 { if len(ch.sendQueue) == 0 {return false}; ch.sending = <-ch.sendQueue }`
 \*   nextPacketMsg: bytes = sending[:min(P, len)], `if len(ch.sending) <= maxSize { EOF = 1; sending = nil } else { EOF = 0; sending = sending[min..:] }`
 SendPacket(c) ==
+  /\ ~cut
   /\ ~Idle(c) \/ queue[c] # <<>>
   /\ Len(wire) < WireCap
   /\ LET cur  == IF Idle(c) THEN Whole(Head(queue[c])) ELSE sending[c]
@@ -105,12 +115,12 @@ SendPacket(c) ==
              /\ sending' = [sending EXCEPT ![c] = IF eof THEN NoPiece ELSE [cur EXCEPT !.lo = cur.lo + k]]
              /\ wire' = Append(wire, pkt)
              /\ last' = [op |-> "packet", ch |-> c, eof |-> eof, id |-> cur.id, lo |-> cur.lo, hi |-> cur.lo + k]
-  /\ UNCHANGED <<enq, recving, dlv>>
+  /\ UNCHANGED <<enq, recving, dlv, cut>>
 
 \* recvRoutine reads the next packet: `ch.recving = append(ch.recving, packet.Bytes...)`;
 \* `if packet.EOF == 1 { msgBytes := ch.recving; ch.recving = ch.recving[:0]; return msgBytes }` -> onReceive
 RecvPacket ==
-  /\ wire # <<>>
+  /\ ~cut /\ wire # <<>>
   /\ LET pkt == Head(wire)
          c   == pkt.ch
          buf == AddPiece(recving[c], [id |-> pkt.id, lo |-> pkt.lo, hi |-> pkt.hi])
@@ -121,11 +131,23 @@ RecvPacket ==
            ELSE /\ recving' = [recving EXCEPT ![c] = buf]
                 /\ UNCHANGED dlv
         /\ last' = [op |-> "recv", ch |-> c, deliver |-> pkt.eof, id |-> pkt.id, lo |-> pkt.lo, hi |-> pkt.hi]
-  /\ UNCHANGED <<enq, queue, sending>>
+  /\ UNCHANGED <<enq, queue, sending, cut>>
+
+\* the stream ends: in the middle of the packet at the head of the stream (the label names it;
+\* the harness delivers a proper beginning of its bytes) or, with nothing in flight, between
+\* two packets.  The receiver's error path runs (recvRoutine stops); nothing is handed over.
+NoPacket == [ch |-> 0, eof |-> FALSE, id |-> 0, lo |-> 0, hi |-> 0]
+Cut ==
+  /\ ~cut /\ cut' = TRUE
+  /\ CutBetween \/ wire # <<>>
+  /\ wire' = <<>>
+  /\ last' = [op |-> "cut", partial |-> IF wire = <<>> THEN NoPacket ELSE Head(wire)]
+  /\ UNCHANGED <<enq, queue, sending, recving, dlv>>
 
 Next == \/ \E c \in Chans, n \in MsgLens : Send(c, n) \/ TrySendFull(c, n)
         \/ \E c \in Chans : SendPacket(c)
         \/ RecvPacket
+        \/ Cut
 
 Spec == Init /\ [][Next]_vars
 
@@ -148,10 +170,10 @@ Assembly ==
         /\ LET m == enq[c][Len(dlv[c]) + 1] IN
              recving[c][1].id = m.id /\ recving[c][1].lo = 0 /\ recving[c][1].hi < m.len
 
-\* nothing is lost: when the sender has nothing pending and the stream is drained, everything
-\* accepted has been delivered
+\* nothing is lost on a live connection: when the sender has nothing pending and the stream is
+\* drained, everything accepted has been delivered
 Quiescent == wire = <<>> /\ \A c \in Chans : Idle(c) /\ queue[c] = <<>>
-NoLoss == Quiescent => \A c \in Chans : Len(dlv[c]) = Len(enq[c]) /\ recving[c] = <<>>
+NoLoss == (~cut /\ Quiescent) => \A c \in Chans : Len(dlv[c]) = Len(enq[c]) /\ recving[c] = <<>>
 
 \* a delivery happens only on an eof packet and hands over one message of that packet's channel
 DeliverStep ==
@@ -161,10 +183,9 @@ DeliverStep ==
          /\ \A i \in 1..Len(dlv[c]) : dlv'[c][i] = dlv[c][i] ]_vars
 
 (* ---- export for the replay harness ------------------------------------ *)
-Proj(d, r, w) == [dlv |-> [c \in Chans |-> Len(d[c])], asm |-> r, wire |-> Len(w)]
-St(e, q, s, w, r, d) == [e |-> e, q |-> q, s |-> s, w |-> w, r |-> r, d |-> [c \in Chans |-> Len(d[c])]]
-Edge == PrintT(ToJson([from |-> St(enq, queue, sending, wire, recving, dlv),
+St(e, q, s, w, r, d, x) == [e |-> e, q |-> q, s |-> s, w |-> w, r |-> r, d |-> [c \in Chans |-> Len(d[c])], x |-> x]
+Edge == PrintT(ToJson([from |-> St(enq, queue, sending, wire, recving, dlv, cut),
                        act  |-> last',
-                       to   |-> St(enq', queue', sending', wire', recving', dlv')]))
-View == <<enq, queue, sending, wire, recving, dlv>>
+                       to   |-> St(enq', queue', sending', wire', recving', dlv', cut')]))
+View == <<enq, queue, sending, wire, recving, dlv, cut>>
 =============================================================================
